@@ -60,9 +60,9 @@ func Decode(raw json.RawMessage) (core.Schedule, error) {
 	return s, json.Unmarshal(raw, s)
 }
 
-var keyPool = []string{"/tables/a", "/tables/b", "/tables/ab", "/tables/a/lease", "/tables/b/lease", "/tables/sys/idseq", "/cleanup/1/a", "/cleanup/1/b", "/cleanup/2/a", "/cleanup/12/c", "/x", "/tables/a/b/c"}
+var keyPool = []string{"/tables/a", "/tables/b", "/tables/ab", "/tables/a/lease", "/tables/b/lease", "/tables/sys/idseq", "/cleanup/1/a", "/cleanup/1/b", "/cleanup/2/a", "/cleanup/12/c", "/x", "/tables/a/b/c", "/tables/ab/x/y", "/cleanup/12/c/d", "/tables/b_old/s/0"}
 var patterns = []string{"/tables/*", "/cleanup/1/*", "/cleanup/2/*", "/cleanup/*/*", "/tables/*/lease", "/*", "/tables/a*", "/nonexistent/*", "/tables/?", "/tables/[ab]"}
-var dirs = []string{"/tables", "/tables/a", "/cleanup", "/cleanup/1", "/tables/sys", "/nothing", "/tables/a/b", "/x"}
+var dirs = []string{"/tables", "/tables/a", "/cleanup", "/cleanup/1", "/tables/sys", "/nothing", "/tables/a/b", "/x", "/tables/b", "/tables/ab", "/cleanup/12"}
 var valPool = []string{"", "v", "{\"name\":\"t\",\"cluster_id\":10001}", "quote\"back\\slash", "new\nline\ttab", "ünïcödé ✓", "<html>&amp;", " sep", "10002", "1700000000000$3"}
 
 type mpair struct {
